@@ -3,7 +3,8 @@
     Vocabulary ([wf_root], [dag_wf], [dag_fits], ...) is in DagFile/DagSpec.v and DagFile/CodecProofs.v. *)
 From Coq Require Import ZArith List Bool.
 From MT Require Import DagFile.FlattenModel DagFile.PruneModel DagFile.CodecModel DagFile.ChronoModel
-  DagFile.DagSpec DagFile.CodecProofs DagFile.FlattenProofs DagFile.TotalsProofs DagFile.ChronoProofs DagFile.Examples.
+  DagFile.DagSpec DagFile.CodecProofs DagFile.FlattenProofs DagFile.TotalsProofs DagFile.ChronoProofs
+  DagFile.StackProofs DagFile.Examples.
 Import ListNotations.
 Local Open Scope Z_scope.
 
@@ -76,3 +77,15 @@ Example C19_replay_example : exists st0 st, chrono_init ex_dag = Some st0 /\
   chrono_run 29 choose_min ex_dag st0 = Finished st /\ length (elog st) = 16%nat /\
   events_of (elog st) 2 = [0; 1; 2; 3] /\ events_of (elog st) 0 = [].
 Proof. vm_compute. eexists. eexists. repeat split. Qed.
+
+(** The literal explicit-stack loop of dr_pi_dag_enum_nodes (pop a node, fix its offsets at the current
+    allocation pointer, copy its children contiguously, push them so that the first child is popped next),
+    with its result put into index order, enumerates exactly the entries (index, children block, subtree)
+    of the recursive description [entries] on which [make_pi_dag] and the theorems above are built. *)
+Theorem C19_enum_order : forall t, entries_stack t = Some (entries t).
+Proof. exact entries_stack_ok. Qed.
+Print Assumptions C19_enum_order.
+
+Example C19_enum_order_example : map (fun e => (fst (fst e), snd (fst e))) (entries ex_tree) =
+  [(0, 1); (1, 3); (2, 7); (3, 5); (4, 7); (5, 6); (6, 7)]%nat.
+Proof. reflexivity. Qed.
